@@ -64,7 +64,51 @@ func recvPredicateCall(call *ssa.Call) (ssa.Value, bool) {
 			chP, idx = p, i
 		}
 	}
-	if chP == nil || idx >= len(call.Call.Args) {
+	if chP == nil {
+		// no channel parameter: a probe of a channel FIELD of its receiver (st.isDone()); the channel is named by its field,
+		// which is the same whoever calls
+		var fields []ssa.Value
+		allInstrsLocal(f, func(in ssa.Instruction) {
+			switch x := in.(type) {
+			case *ssa.Select:
+				for _, st := range x.States {
+					if st.Dir == types.RecvOnly {
+						if _, _, isF := loadedField(st.Chan); isF {
+							fields = append(fields, st.Chan)
+						}
+					}
+				}
+			case *ssa.UnOp:
+				if x.Op == token.ARROW {
+					if _, _, isF := loadedField(x.X); isF {
+						fields = append(fields, x.X)
+					}
+				}
+			}
+		})
+		if len(fields) != 1 {
+			return nil, false
+		}
+		want, _, _ := loadedField(fields[0])
+		okAll, n := true, 0
+		forEachReturnValue(f, 0, func(v ssa.Value, at ssa.Instruction) {
+			if isConstBool(v, false) {
+				return
+			}
+			n++
+			if !recvDominates(at, func(ch ssa.Value) bool {
+				fr, _, ok := loadedField(ch)
+				return ok && fr == want
+			}) {
+				okAll = false
+			}
+		})
+		if !okAll || n == 0 {
+			return nil, false
+		}
+		return fields[0], true
+	}
+	if idx >= len(call.Call.Args) {
 		return nil, false
 	}
 	okAll, n := true, 0
@@ -996,6 +1040,11 @@ func derivesFromRec(v, src ssa.Value, seen map[ssa.Value]bool, some *bool) bool 
 	if _, isMk := v.(*ssa.MakeMap); isMk {
 		return true
 	}
+	if p, isP := v.(*ssa.Parameter); isP {
+		if arg := crossParameter(p); arg != nil {
+			return derivesFromRec(arg, src, seen, some)
+		}
+	}
 	if u, ok := v.(*ssa.UnOp); ok && u.Op == token.MUL {
 		if a, ok := u.X.(*ssa.Alloc); ok {
 			n := 0
@@ -1013,8 +1062,11 @@ func derivesFromRec(v, src ssa.Value, seen map[ssa.Value]bool, some *bool) bool 
 			return n > 0
 		}
 	}
-	if phi, ok := v.(*ssa.Phi); ok {
-		for _, e := range phi.Edges {
+	if alts, ok := altEdges(v); ok { // a phi, or the result of a private helper
+		for _, e := range alts {
+			if _, isPhi := v.(*ssa.Phi); !isPhi && isNilConst(e) {
+				continue // what a helper returns together with an error
+			}
 			if !derivesFromRec(e, src, seen, some) {
 				return false
 			}
@@ -1463,7 +1515,7 @@ func (w *World) latchedFinishErr(fin *ssa.Function, v ssa.Value) (ssa.Instructio
 	})
 	isLoadOf := func(x ssa.Value, ci casInfo) bool {
 		load, ok := x.(*ssa.Call)
-		if !ok || !isAtomicPointerMethod(load, "Load") || len(load.Call.Args) < 1 || load.Parent() != fin {
+		if !ok || !isAtomicPointerMethod(load, "Load") || len(load.Call.Args) < 1 || regionRoot(load.Parent()) != fin {
 			return false
 		}
 		fr, _, ok := fieldOfAddr(load.Call.Args[0])
@@ -1583,6 +1635,14 @@ func paramAtEntry(fin *ssa.Function, v ssa.Value, at ssa.Instruction) bool {
 	v = stripConv(v)
 	if v == ssa.Value(fin.Params[1]) {
 		return true
+	}
+	// the parameter of a private helper of fin that receives fin's error parameter unchanged
+	if p, isP := v.(*ssa.Parameter); isP && p.Parent() != fin && regionRoot(p.Parent()) == fin {
+		if arg := crossParameter(p); arg != nil {
+			if call := inlinedInto(p.Parent()); call != nil {
+				return paramAtEntry(fin, arg, call)
+			}
+		}
 	}
 	// spilled parameter (reassigned later): the only store dominating `at` is the initial one
 	if u, ok := v.(*ssa.UnOp); ok && u.Op == token.MUL {
